@@ -177,6 +177,8 @@ def main(tier):
                           {"kind": "ban", "ban": ban, "form": form, "main": text, "files": files, "doc": m["doc"],
                            "observed_plain": a, "observed_banned": b, "signature": sig}, sig)
     chk.extra["cases_with_banned_kind_present"] = hit
+    import fixrel
+    fixrel.c18(chk, tier)
     if meta:
         x = next(iter(meta.values()))
         chk.sample({"banned": x[1], "kinds_used": sorted(x[2]), "form": x[3]})
@@ -189,6 +191,9 @@ def main(tier):
 
 def replay(path):
     rp = json.load(open(path))["replay"]
+    if rp.get("kind") in ("fxpair", "fxban"):
+        import fixrel
+        return fixrel.replay("C18", rp)
     if rp.get("kind") == "ban_include":
         chk = Check("C18", "quick")
         chk.evaluations = 1
